@@ -115,6 +115,18 @@ def run(pid, tier, seed, extra_cases=None, key=None):
             states += pres.distinct
             cases = [{"id": 0, "name": n, "script": [dict({"q": 0, "r": "", "blk": 0, "ext": 0}, **e) for e in s]} for n, s in PM_DIRECTED.items()] + \
                     [{"id": 0, "name": "pm-tlc", "script": s} for s in pms] + cases[:len(DIRECTED) + 300]
+        # one block attached for several requests inside one queued message (the sender is busy with an earlier message)
+        for n, sc in {"same-block-two-requests": [C("r0", 1), C("r1", 1), C("r2", 1), E("sendok"), E("sendok")],
+                      "same-block-two-requests-fail": [C("r0", 1), C("r1", 1, 1), C("r2", 1), E("sendok"), E("sendfail")],
+                      "same-block-three-times": [C("r0", 1), C("r1", 1), C("r2", 1), C("r1", 1), E("sendfail"), E("sendok")]}.items():
+            cases.append({"id": 0, "name": n, "script": sc, "sameBlock": True})
+        # every second script with two or more block-carrying calls sends one and the same block in all of them
+        k = 0
+        for c in cases:
+            if sum(1 for e in c["script"] if e.get("ev") in ("call", "begin") and e.get("blk", 0) > 0) >= 2:
+                k += 1
+                if k % 2 == 0:
+                    c["sameBlock"] = True
         for i, c in enumerate(cases):
             c["id"] = i + 1
         lines = run_shards(cases, tmp)
